@@ -25,6 +25,17 @@ def run(ctx):
     from sklearn.neighbors import KNeighborsClassifier
     from sklearn.pipeline import Pipeline
     from sklearn.preprocessing import FunctionTransformer, StandardScaler
+    from sklearn.base import BaseEstimator, ClassifierMixin
+
+    class HardNN(BaseEstimator, ClassifierMixin):
+        """a 1-NN classifier WITHOUT predict_proba: a metric that needs probabilities gets the one-hot encoding of its hard predictions against the class list"""
+        def fit(self, Xf, yf):
+            self.m_ = KNeighborsClassifier(1).fit(Xf, yf)
+            self.classes_ = self.m_.classes_
+            return self
+
+        def predict(self, Xf):
+            return self.m_.predict(Xf)
     U = I["utility"]
     rng = ctx.rng
     q = ctx.tier == "quick"
@@ -48,8 +59,10 @@ def run(ctx):
             if mc_trunc:
                 kw = dict(mc_iterations=6, mc_truncation_steps=1, mc_tolerance=rng.choice([0.2, 0.35, 0.5]), seed=rng.randrange(1000))
 
+        ukind = ["accuracy"]
+
         def score(Xa, ya, Xva, yva, pipeline=None, **more):
-            util = U.SklearnModelAccuracy(KNeighborsClassifier(1))
+            util = U.SklearnModelAccuracy(KNeighborsClassifier(1)) if ukind[0] == "accuracy" else U.SklearnModelRocAuc(HardNN())
             with warnings.catch_warnings():
                 warnings.simplefilter("ignore")
                 imp = I["imp"].ShapleyImportance(method=method, utility=util, pipeline=pipeline, **dict(kw, **more))
@@ -168,6 +181,31 @@ def run(ctx):
             ctx.case((it, name), nontrivial=len(set(round(x, 9) for x in base)) > 1, sample=dict(rcase, scores=got), rendering=name, method=method, accepted=True)
             if len(got) != len(ref) or any(abs(a - b) > 1e-9 for a, b in zip(got, ref)):
                 ctx.mismatch("scores depend on the representation (%s)" % name, rcase, impl=got, spec=ref)
+        # the same dataset under a utility whose metric needs probabilities (ROC-AUC) around a model that has only hard predictions, in the pandas renderings: the class list
+        # the one-hot encoding is built against must not depend on the container the labels arrive in (binary labels, both classes among the validation labels)
+        if method in ("bruteforce", "montecarlo") and not mc_trunc and c == 2 and len(set(yv.tolist())) == 2:
+            ukind[0] = "rocauc_hard"
+            try:
+                base_auc = score(X, y, Xv, yv)
+                for name, mk in renderings.items():
+                    if not (name in ("dataframe", "dataframe_str_index", "series_labels", "dataframe_series_shuffled_index") or (name in idx_info and idx_info[name]["labels"] == "int")):
+                        continue
+                    Xa, ya, Xva, yva, pipe = mk()
+                    rcase = dict(case, rendering=name, utility="SklearnModelRocAuc around a model without predict_proba")
+                    if name in idx_info:
+                        rcase["pandas"] = idx_info[name]
+                    try:
+                        got = score(Xa, ya, Xva, yva, pipeline=pipe)
+                    except Exception as e:  # noqa
+                        ctx.dist["rocauc_rendering_rejected:%s" % type(e).__name__] += 1
+                        continue
+                    ctx.case((it, name, "rocauc"), nontrivial=len(set(round(x, 9) for x in base_auc)) > 1, rendering=name, method=method, utility="rocauc_hard", accepted=True)
+                    if len(got) != len(base_auc) or any(abs(a - b) > 1e-9 for a, b in zip(got, base_auc)):
+                        ctx.mismatch("scores depend on the representation (%s) under a ROC-AUC utility with hard predictions" % name, rcase, impl=got, spec=base_auc)
+            except Exception as e:  # noqa
+                ctx.dist["rocauc_plain_rejected:%s" % type(e).__name__] += 1
+            finally:
+                ukind[0] = "accuracy"
         if ctx.elapsed() > (400 if q else 1800):
             break
     ctx.extra["acceptance"] = {"%s/%s" % k: v for k, v in sorted(accepted.items())}
